@@ -675,8 +675,10 @@ class CourierClient(metaclass=func_utils.SingletonMeta):
       if not self.is_alive:
         raise RuntimeError(f'Worker disconnected: {self}')
       time.sleep(0)
+    # Only a failure of the call itself can be the transport's deadline error;
+    # an exception the server evaluated and sent back is re-raised unchanged.
     try:
-      return self._result_or_exception(future.result())
+      pickled = future.result()
     except Exception as e:  # pylint: disable=broad-exception-caught
       if is_timeout(e):
         if self.is_alive:
@@ -684,6 +686,7 @@ class CourierClient(metaclass=func_utils.SingletonMeta):
         else:
           e.add_note(f'Courier worker {self} died.')
       raise e
+    return self._result_or_exception(pickled)
 
   async def async_get_result(self, lazy_obj: types.Resolvable[_T]) -> _T:
     """Low level async courier call to retrieve the result."""
@@ -694,9 +697,7 @@ class CourierClient(metaclass=func_utils.SingletonMeta):
         raise RuntimeError(f'Async worker disconnected: {self}')
       await asyncio.sleep(0)
     try:
-      return self._result_or_exception(future.result())
-    except StopIteration as e:
-      raise StopAsyncIteration(*e.args) from e
+      pickled = future.result()
     except Exception as e:  # pylint: disable=broad-exception-caught
       if is_timeout(e):
         if self.is_alive:
@@ -704,6 +705,10 @@ class CourierClient(metaclass=func_utils.SingletonMeta):
         else:
           e.add_note(f'Courier worker {self} died.')
       raise e
+    try:
+      return self._result_or_exception(pickled)
+    except StopIteration as e:
+      raise StopAsyncIteration(*e.args) from e
 
   def submit(self, task: Task[_T] | types.Resolvable[_T]) -> Task[_T]:
     """Runs tasks sequentially and returns the task."""
